@@ -121,6 +121,10 @@ def generate(R, tier):
     enc = R.choice(["subset", "subset", "real", "integer", "binary"])
     if fam in ("ohv", "uc"):
         enc = R.choice(["subset", "subset", "real"])
+    direct = None
+    if R.random() < 0.12:
+        # a selection configuration built directly from a decision vector (any numeric dtype the encoding admits)
+        direct = {"mate": R.random() < 0.5, "dtype": R.choice(["bool", "int8", "int64", "int32", "float64", "float32", "uint8"]), "seed": R.randrange(1 << 30)}
     more = R.random() < 0.45
     fam2 = R.choice(["wgs", "wgs", "gwgebv", "gwgebv", "febv", "meh", "mgr", "pafd", "pau", "opv", "embv", "mogs", "gb"])
     enc2 = R.choice(ENCS[fam2])
@@ -138,7 +142,7 @@ def generate(R, tier):
     if fam in MATE and enc == "subset":
         import math
         ncross = max(1, min(ncross, math.comb(nt, nparent)))   # a subset of the candidate crosses (unordered parent sets)
-    return {"fam": fam, "enc": enc, "alpha": alpha, "world": {"seed": R.randrange(1 << 30), "ntaxa": nt, "nvrnt": R.randint(4, 10), "ntrait": R.randint(1, 2)},
+    return {"fam": fam, "enc": enc, "alpha": alpha, "direct": direct, "reuse": R.random() < 0.3, "world": {"seed": R.randrange(1 << 30), "ntaxa": nt, "nvrnt": R.randint(4, 10), "ntrait": R.randint(1, 2)},
             "ncross": ncross, "nparent": nparent, "nmating": R.randint(1, 2), "nprogeny": R.randint(1, 3),
             "mo": R.random() < 0.3, "exact": R.random() < 0.6, "seed": R.randrange(1 << 31), "entropy_world": R.randrange(1000),
             "rng": {"kind": R.choice(["Generator", "RandomState"]), "seed": R.randrange(1 << 30),
@@ -251,10 +255,60 @@ def _repeats(x):
     return sum(len(r) - len(set(r)) for r in x.tolist())
 
 
+DIRECT_DT = {"subset": ("int64", "int32", "uint8", "int8"), "integer": ("int64", "int32", "uint8", "int8"), "binary": ("bool", "int8", "int64", "uint8"),
+             "real": ("float64", "float32")}
+
+
+def _run_direct(sc, g):
+    """A configuration object built by hand, as user code that has its own decision vector does."""
+    import importlib
+    d = sc["direct"]
+    pg, gm, bv, raw = _population(sc["world"])
+    nt = pg.ntaxa
+    R = random.Random(d["seed"])
+    enc, mate = sc["enc"], d["mate"]
+    nparent = 2 if mate else sc["nparent"]
+    ncross = sc["ncross"]
+    xmap = numpy.array([[i, j] for i in range(nt) for j in range(i + 1, nt)], dtype=int) if mate else None
+    ncand = len(xmap) if mate else nt
+    slots = ncross * (1 if mate else nparent)
+    if enc == "subset":
+        k = min(ncand, max(1, R.choice([slots, slots, max(1, slots // 2), R.randint(1, ncand)])))
+        decn = numpy.array(R.sample(range(ncand), k))
+    elif enc == "binary":
+        decn = numpy.array([1 if R.random() < 0.5 else 0 for _ in range(ncand)])
+        if decn.sum() == 0:
+            decn[R.randrange(ncand)] = 1
+    elif enc == "integer":
+        decn = numpy.array([R.choice([0, 0, 1, 2, 5]) for _ in range(ncand)])
+        if decn.sum() == 0:
+            decn[R.randrange(ncand)] = 3
+    else:
+        decn = numpy.array([R.choice([0.0, 0.0, R.random(), 3.0 * R.random()]) for _ in range(ncand)])
+        if decn.sum() == 0:
+            decn[R.randrange(ncand)] = 1.0
+    dt = d["dtype"] if d["dtype"] in DIRECT_DT[enc] else DIRECT_DT[enc][0]
+    decn = decn.astype(dt)
+    name = ENC[enc] + ("Mate" if mate else "") + "SelectionConfiguration"
+    cls = getattr(importlib.import_module("pybrops.breed.prot.sel.cfg." + name), name)
+    kw = dict(ncross=ncross, nparent=nparent, nmating=sc["nmating"], nprogeny=sc["nprogeny"], pgmat=pg, xconfig_decn=decn, rng=g)
+    if mate:
+        kw["xconfig_xmap"] = xmap
+    cfg = cls(**kw)
+    xc = cfg.sample_xconfig(return_xconfig=True)
+    return pg, gm, bv, raw, cls, False, cfg, xc, {}
+
+
+LAST_PROT = [None]          # the protocol object of the run in progress
+# families whose selection with the exact optimiser is a deterministic function of the population
+DETERMINISTIC = ("ebv", "gebv", "wgs", "gwgebv", "ohv", "uc", "opv", "pafd", "pau", "mogs", "gb", "febv")   # not: embv, random (simulation), ocs, mgr, meh (random jitter of the relationship matrix)
+
+
 def _run(sc, g, perm=None):
     pg, gm, bv, raw = _population(sc["world"], perm)
     cls, kw, mo = _protocol(sc, g, sc["world"]["ntrait"])
     prot = cls(**kw)
+    LAST_PROT[0] = prot
     misc = {}
     cfg = prot.select(pgmat=pg, gmat=pg, ptdf=None, bvmat=bv, gpmod=gm, t_cur=0, t_max=5, miscout=misc)
     xc = cfg.sample_xconfig(return_xconfig=True)
@@ -268,8 +322,14 @@ def execute(sc):
     prng.seed(sc["seed"])
     cname = PREFIX[fam] + ENC[enc] + "Selection"
     C = cname + ".select"
+    isdirect = bool(sc.get("direct"))
+    npar_eff = 2 if (isdirect and sc["direct"]["mate"]) else sc["nparent"]
+    if isdirect:
+        faults["configuration_built_directly"] = 1
+        fam = "direct"
+        C = cname = "direct-configuration"
     try:
-        pg, gm, bv, raw, cls, mo, cfg, xc, misc = _run(sc, g)
+        pg, gm, bv, raw, cls, mo, cfg, xc, misc = _run_direct(sc, g) if isdirect else _run(sc, g)
     except Exception as e:
         ms = None
         if enc in ("binary", "integer", "real") and "broadcast" in str(e) or "sum" in str(e).lower() and "zero" in str(e).lower():
@@ -285,10 +345,10 @@ def execute(sc):
     log.append([cname, adig(decn), adig(xc)])
     mate = hasattr(cfg, "xconfig_xmap") and getattr(cfg, "xconfig_xmap", None) is not None
     CC = type(cfg).__name__ + ".sample_xconfig"
-    T = sc["ncross"] * (1 if mate else sc["nparent"])
+    T = sc["ncross"] * (1 if mate else npar_eff)
     # ---- shape
-    if not isinstance(xc, numpy.ndarray) or xc.shape != (sc["ncross"], sc["nparent"]):
-        V.append(viol("xconfig-shape", CC, "shape", "xconfig has shape %r, requested (%d, %d)" % (getattr(xc, "shape", None), sc["ncross"], sc["nparent"])))
+    if not isinstance(xc, numpy.ndarray) or xc.shape != (sc["ncross"], npar_eff):
+        V.append(viol("xconfig-shape", CC, "shape", "xconfig has shape %r, requested (%d, %d)" % (getattr(xc, "shape", None), sc["ncross"], npar_eff)))
         return _out(sc, V, log, faults, probes, True, g)
     # ---- membership and multiplicities
     if mate:
@@ -371,7 +431,7 @@ def execute(sc):
         # ---- no single exchange reduces self-pairings
         r0 = _repeats(xc)
         f = list(flat)
-        npar = sc["nparent"]
+        npar = npar_eff
         for a in range(len(f)):
             for b in range(a + 1, len(f)):
                 f[a], f[b] = f[b], f[a]
@@ -405,6 +465,26 @@ def execute(sc):
                               (decn.tolist(), numpy.asarray(ms.soln_decn[int(best[0])]).tolist())))
                 return _out(sc, V, log, faults, probes, True, g)
             probes["mo_front_checked"] = 1
+    # ---- a protocol object used again on another (larger) population chooses what a new protocol object chooses there
+    if (not isdirect) and sc.get("reuse") and (not mo) and enc == "subset" and sc["exact"] and fam in DETERMINISTIC and LAST_PROT[0] is not None:
+        w2 = dict(sc["world"], ntaxa=sc["world"]["ntaxa"] + 2, seed=sc["world"]["seed"] + 1)
+        try:
+            pg2, gm2, bv2, raw2 = _population(w2)
+            again = LAST_PROT[0].select(pgmat=pg2, gmat=pg2, ptdf=None, bvmat=bv2, gpmod=gm2, t_cur=1, t_max=5, miscout={})
+            cls2, kw2, _ = _protocol(sc, rngseam.make(sc["rng"]["kind"], sc["rng"]["seed"], sc["rng"]["script"]), sc["world"]["ntrait"])
+            fresh = cls2(**kw2).select(pgmat=pg2, gmat=pg2, ptdf=None, bvmat=bv2, gpmod=gm2, t_cur=1, t_max=5, miscout={})
+        except Exception as e:
+            V.append(viol("selection-completes", C, "raises:%s|reused-protocol" % type(e).__name__, "second use of the protocol object on a population of %d: %s: %s" % (w2["ntaxa"], type(e).__name__, str(e)[:200])))
+            return _out(sc, V, log, faults, probes, True, g)
+        a_, f_ = numpy.sort(numpy.asarray(again.xconfig_decn)), numpy.sort(numpy.asarray(fresh.xconfig_decn))
+        same_map = True
+        if hasattr(again, "xconfig_xmap") and getattr(again, "xconfig_xmap", None) is not None:
+            same_map = numpy.array_equal(numpy.asarray(again.xconfig_xmap), numpy.asarray(fresh.xconfig_xmap))
+        if a_.shape != f_.shape or not numpy.array_equal(a_, f_) or not same_map:
+            V.append(viol("truncation-picks-best", C, "reused-protocol", "used a second time on a population of %d taxa the protocol object chooses %s, a new protocol object chooses %s%s" %
+                          (w2["ntaxa"], a_.tolist(), f_.tolist(), "" if same_map else " (candidate cross maps differ)")))
+            return _out(sc, V, log, faults, probes, True, g)
+        faults["protocol_object_reused"] = 1
     # ---- truncation with the exact optimiser picks exactly the best candidates; relabelling permutes the choice
     exact = (not mo) and enc == "subset" and sc["exact"] and fam in ("ebv", "gebv", "wgs", "gwgebv")
     if exact:
